@@ -34,6 +34,7 @@ const c15Schema = `{"name":"NU","version":"1.0.0","tables":{"A":{"columns":{
  "sstr":{"type":{"key":{"type":"string"},"min":0,"max":"unlimited"}},
  "mstr":{"type":{"key":{"type":"string"},"value":{"type":"string"},"min":0,"max":"unlimited"}}
 },"isRoot":true},
+"L":{"columns":{"name":{"type":"string"},"str":{"type":"string"}},"isRoot":true},
 "B":{"columns":{"peer":{"type":{"key":{"type":"uuid","refTable":"A","refType":"strong"},"min":0,"max":"unlimited"}},"owner":{"type":{"key":{"type":"uuid","refTable":"A","refType":"weak"},"value":{"type":"string"},"min":0,"max":"unlimited"}}},"isRoot":true}}}`
 
 var (
@@ -46,93 +47,93 @@ var (
 type c15Use struct {
 	name string
 	// ops using named uuid `nm` (a uuid atom whose text is the name); may touch existing rows e1/e2
-	ops func(nm string) []rm.Op
+	ops func(nm, tb string) []rm.Op // tb: the table the named row is inserted into
 }
 
 func c15Uses() []c15Use {
 	n := func(nm string) rm.Atom { return rm.Atom{K: 'u', S: nm} }
 	str := func(s string) rm.Value { return rm.SetOf(rm.S(s)) }
 	var u []c15Use
-	add := func(name string, f func(nm string) []rm.Op) { u = append(u, c15Use{name, f}) }
+	add := func(name string, f func(nm, tb string) []rm.Op) { u = append(u, c15Use{name, f}) }
 	// row values of an update of an existing row, each column kind
-	add("update.scalar", func(nm string) []rm.Op { return []rm.Op{opUpdate("A", c15E1, rm.Row{"one": rm.SetOf(n(nm))})} })
-	add("update.optional", func(nm string) []rm.Op { return []rm.Op{opUpdate("A", c15E1, rm.Row{"opt": rm.SetOf(n(nm))})} })
-	add("update.set", func(nm string) []rm.Op {
+	add("update.scalar", func(nm, tb string) []rm.Op { return []rm.Op{opUpdate("A", c15E1, rm.Row{"one": rm.SetOf(n(nm))})} })
+	add("update.optional", func(nm, tb string) []rm.Op { return []rm.Op{opUpdate("A", c15E1, rm.Row{"opt": rm.SetOf(n(nm))})} })
+	add("update.set", func(nm, tb string) []rm.Op {
 		return []rm.Op{opUpdate("A", c15E1, rm.Row{"set": rm.SetOf(n(nm), rm.U(c15E2))})}
 	})
-	add("update.set-single", func(nm string) []rm.Op { return []rm.Op{opUpdate("A", c15E1, rm.Row{"set": rm.SetOf(n(nm))})} })
-	add("update.map-key", func(nm string) []rm.Op {
+	add("update.set-single", func(nm, tb string) []rm.Op { return []rm.Op{opUpdate("A", c15E1, rm.Row{"set": rm.SetOf(n(nm))})} })
+	add("update.map-key", func(nm, tb string) []rm.Op {
 		return []rm.Op{opUpdate("A", c15E1, rm.Row{"mks": rm.MapOf(n(nm), rm.S("v"))})}
 	})
-	add("update.map-key-int-value", func(nm string) []rm.Op {
+	add("update.map-key-int-value", func(nm, tb string) []rm.Op {
 		return []rm.Op{opUpdate("A", c15E1, rm.Row{"mki": rm.MapOf(n(nm), rm.I(5))})}
 	})
-	add("update.map-value", func(nm string) []rm.Op {
+	add("update.map-value", func(nm, tb string) []rm.Op {
 		return []rm.Op{opUpdate("A", c15E1, rm.Row{"msv": rm.MapOf(rm.S("k"), n(nm))})}
 	})
-	add("update.map-key-and-value", func(nm string) []rm.Op {
+	add("update.map-key-and-value", func(nm, tb string) []rm.Op {
 		return []rm.Op{opUpdate("A", c15E1, rm.Row{"muu": rm.MapOf(n(nm), n(nm), rm.U(c15E2), rm.U(c15E2))})}
 	})
-	add("update.map-uuid-key-other-value", func(nm string) []rm.Op {
+	add("update.map-uuid-key-other-value", func(nm, tb string) []rm.Op {
 		return []rm.Op{opUpdate("A", c15E1, rm.Row{"muu": rm.MapOf(n(nm), rm.U(c15E2))})}
 	})
 	// row values of another insert
-	add("insert.row-values", func(nm string) []rm.Op {
+	add("insert.row-values", func(nm, tb string) []rm.Op {
 		return []rm.Op{opInsert("A", uu("5", 5), rm.Row{"name": str("other"), "one": rm.SetOf(n(nm)), "set": rm.SetOf(n(nm)), "msv": rm.MapOf(rm.S("k"), n(nm)), "mks": rm.MapOf(n(nm), rm.S("v"))})}
 	})
-	add("insert.reference-columns", func(nm string) []rm.Op {
+	add("insert.reference-columns", func(nm, tb string) []rm.Op {
 		return []rm.Op{opInsert("B", uu("6", 1), rm.Row{"peer": rm.SetOf(n(nm)), "owner": rm.MapOf(n(nm), rm.S("me"))})}
 	})
 	// conditions
-	add("where._uuid", func(nm string) []rm.Op {
-		return []rm.Op{{Op: "update", Table: "A", Where: []rm.Cond{{Col: "_uuid", Fn: "==", Val: rm.SetOf(n(nm))}}, Row: rm.Row{"str": str("touched")}}}
+	add("where._uuid", func(nm, tb string) []rm.Op {
+		return []rm.Op{{Op: "update", Table: tb, Where: []rm.Cond{{Col: "_uuid", Fn: "==", Val: rm.SetOf(n(nm))}}, Row: rm.Row{"str": str("touched")}}}
 	})
-	add("where.scalar-column", func(nm string) []rm.Op {
+	add("where.scalar-column", func(nm, tb string) []rm.Op {
 		return []rm.Op{
 			opUpdate("A", c15E2, rm.Row{"one": rm.SetOf(n(nm))}),
 			{Op: "update", Table: "A", Where: []rm.Cond{{Col: "one", Fn: "==", Val: rm.SetOf(n(nm))}}, Row: rm.Row{"str": str("found by one")}}}
 	})
-	add("where.set-includes", func(nm string) []rm.Op {
+	add("where.set-includes", func(nm, tb string) []rm.Op {
 		return []rm.Op{
 			opUpdate("A", c15E2, rm.Row{"set": rm.SetOf(n(nm), rm.U(c15E1))}),
 			{Op: "update", Table: "A", Where: []rm.Cond{{Col: "set", Fn: "includes", Val: rm.SetOf(n(nm))}}, Row: rm.Row{"str": str("found by set")}}}
 	})
-	add("where.delete-by-name", func(nm string) []rm.Op {
-		return []rm.Op{{Op: "delete", Table: "A", Where: []rm.Cond{{Col: "_uuid", Fn: "==", Val: rm.SetOf(n(nm))}}}}
+	add("where.delete-by-name", func(nm, tb string) []rm.Op {
+		return []rm.Op{{Op: "delete", Table: tb, Where: []rm.Cond{{Col: "_uuid", Fn: "==", Val: rm.SetOf(n(nm))}}}}
 	})
-	add("where.select-by-name", func(nm string) []rm.Op {
-		return []rm.Op{{Op: "select", Table: "A", Where: []rm.Cond{{Col: "_uuid", Fn: "==", Val: rm.SetOf(n(nm))}}}}
+	add("where.select-by-name", func(nm, tb string) []rm.Op {
+		return []rm.Op{{Op: "select", Table: tb, Where: []rm.Cond{{Col: "_uuid", Fn: "==", Val: rm.SetOf(n(nm))}}}}
 	})
 	// mutations
-	add("mutate.set-insert", func(nm string) []rm.Op { return []rm.Op{opMutate("A", c15E1, "set", "insert", rm.SetOf(n(nm)))} })
-	add("mutate.set-insert-two", func(nm string) []rm.Op {
+	add("mutate.set-insert", func(nm, tb string) []rm.Op { return []rm.Op{opMutate("A", c15E1, "set", "insert", rm.SetOf(n(nm)))} })
+	add("mutate.set-insert-two", func(nm, tb string) []rm.Op {
 		return []rm.Op{opMutate("A", c15E1, "set", "insert", rm.SetOf(n(nm), rm.U(c15E2)))}
 	})
-	add("mutate.set-delete", func(nm string) []rm.Op {
+	add("mutate.set-delete", func(nm, tb string) []rm.Op {
 		return []rm.Op{opMutate("A", c15E1, "set", "insert", rm.SetOf(n(nm), rm.U(c15E2))), opMutate("A", c15E1, "set", "delete", rm.SetOf(n(nm)))}
 	})
-	add("mutate.map-insert-key", func(nm string) []rm.Op {
+	add("mutate.map-insert-key", func(nm, tb string) []rm.Op {
 		return []rm.Op{opMutate("A", c15E1, "mks", "insert", rm.MapOf(n(nm), rm.S("v")))}
 	})
-	add("mutate.map-insert-value", func(nm string) []rm.Op {
+	add("mutate.map-insert-value", func(nm, tb string) []rm.Op {
 		return []rm.Op{opMutate("A", c15E1, "msv", "insert", rm.MapOf(rm.S("k"), n(nm)))}
 	})
-	add("mutate.map-delete-pair", func(nm string) []rm.Op {
+	add("mutate.map-delete-pair", func(nm, tb string) []rm.Op {
 		return []rm.Op{opMutate("A", c15E1, "msv", "insert", rm.MapOf(rm.S("k"), n(nm))), opMutate("A", c15E1, "msv", "delete", rm.MapOf(rm.S("k"), n(nm)))}
 	})
-	add("mutate.map-delete-by-key-set", func(nm string) []rm.Op {
+	add("mutate.map-delete-by-key-set", func(nm, tb string) []rm.Op {
 		return []rm.Op{opMutate("A", c15E1, "mks", "insert", rm.MapOf(n(nm), rm.S("v"), rm.U(c15E2), rm.S("w"))), opMutate("A", c15E1, "mks", "delete", rm.SetOf(n(nm)))}
 	})
-	add("mutate.map-uuid-uuid-delete-by-key-set", func(nm string) []rm.Op {
+	add("mutate.map-uuid-uuid-delete-by-key-set", func(nm, tb string) []rm.Op {
 		return []rm.Op{opMutate("A", c15E1, "muu", "insert", rm.MapOf(n(nm), rm.U(c15E2))), opMutate("A", c15E1, "muu", "delete", rm.SetOf(n(nm)))}
 	})
 	// the same text as string data: must stay untouched
-	add("string-data", func(nm string) []rm.Op {
+	add("string-data", func(nm, tb string) []rm.Op {
 		return []rm.Op{opUpdate("A", c15E1, rm.Row{"str": str(nm), "sstr": rm.SetOf(rm.S(nm), rm.S("x")), "mstr": rm.MapOf(rm.S(nm), rm.S(nm)), "msv": rm.MapOf(rm.S(nm), rm.U(c15E2)), "mks": rm.MapOf(rm.U(c15E2), rm.S(nm))})}
 	})
 	// wait on a named row
-	add("wait", func(nm string) []rm.Op {
-		return []rm.Op{{Op: "wait", Table: "A", Where: []rm.Cond{{Col: "_uuid", Fn: "==", Val: rm.SetOf(n(nm))}}, Until: "==", Columns: []string{"name"}, Rows: []rm.Row{{"name": str("named-" + nm)}}}}
+	add("wait", func(nm, tb string) []rm.Op {
+		return []rm.Op{{Op: "wait", Table: tb, Where: []rm.Cond{{Col: "_uuid", Fn: "==", Val: rm.SetOf(n(nm))}}, Until: "==", Columns: []string{"name"}, Rows: []rm.Row{{"name": str("named-" + nm)}}}}
 	})
 	return u
 }
@@ -146,33 +147,43 @@ type c15Txn struct {
 func c15Txns(level int) []c15Txn {
 	var out []c15Txn
 	str := func(s string) rm.Value { return rm.SetOf(rm.S(s)) }
-	def := func(nm, explicit string) rm.Op {
-		return rm.Op{Op: "insert", Table: "A", UUIDName: nm, UUID: explicit, Row: rm.Row{"name": str("named-" + nm)}}
-	}
-	for _, use := range c15Uses() {
-		for _, explicit := range []bool{true, false} {
-			for _, before := range []bool{false, true} {
-				ex := ""
-				if explicit {
-					ex = c15N1
-				}
-				var ops []rm.Op
-				if before {
-					ops = append(append(ops, use.ops("n1")...), def("n1", ex))
-				} else {
-					ops = append(append(ops, def("n1", ex)), use.ops("n1")...)
-				}
-				out = append(out, c15Txn{name: fmt.Sprintf("%s explicit=%v use-before-insert=%v", use.name, explicit, before), ops: ops})
+	for _, tb := range []string{"A", "L"} {
+		tb := tb
+		def := func(nm, explicit string) rm.Op {
+			return rm.Op{Op: "insert", Table: tb, UUIDName: nm, UUID: explicit, Row: rm.Row{"name": str("named-" + nm)}}
+		}
+		sfx := ""
+		if tb == "L" {
+			sfx = " named-row-in-a-table-without-uuid-columns"
+		}
+		for _, use := range c15Uses() {
+			if tb == "L" && use.name == "insert.reference-columns" {
+				continue // B's references point at table A
 			}
+			for _, explicit := range []bool{true, false} {
+				for _, before := range []bool{false, true} {
+					ex := ""
+					if explicit {
+						ex = c15N1
+					}
+					var ops []rm.Op
+					if before {
+						ops = append(append(ops, use.ops("n1", tb)...), def("n1", ex))
+					} else {
+						ops = append(append(ops, def("n1", ex)), use.ops("n1", tb)...)
+					}
+					out = append(out, c15Txn{name: fmt.Sprintf("%s explicit=%v use-before-insert=%v%s", use.name, explicit, before, sfx), ops: ops})
+				}
+			}
+			// two names, uses interleaved: n2's use before n1's insert, n1's use after n2's insert
+			ops := append([]rm.Op{}, use.ops("n2", tb)...)
+			ops = append(ops, def("n1", c15N1), def("n2", ""))
+			if !strings.HasPrefix(use.name, "where.delete") && !strings.HasPrefix(use.name, "insert.") {
+				u1 := use.ops("n1", tb)
+				ops = append(ops, u1[len(u1)-1])
+			}
+			out = append(out, c15Txn{name: use.name + " two names" + sfx, ops: ops})
 		}
-		// two names, uses interleaved: n2's use before n1's insert, n1's use after n2's insert
-		ops := append([]rm.Op{}, use.ops("n2")...)
-		ops = append(ops, def("n1", c15N1), def("n2", ""))
-		if !strings.HasPrefix(use.name, "where.delete") && !strings.HasPrefix(use.name, "insert.") {
-			u1 := use.ops("n1")
-			ops = append(ops, u1[len(u1)-1])
-		}
-		out = append(out, c15Txn{name: use.name + " two names", ops: ops})
 	}
 	// the named row referring to itself and to the other
 	n := func(nm string) rm.Atom { return rm.Atom{K: 'u', S: nm} }
